@@ -16,7 +16,6 @@ import (
 	"github.com/attestantio/go-eth2-client/spec/phase0"
 	"github.com/attestantio/vouch/internal/vnd"
 	"github.com/attestantio/vouch/internal/vstub"
-	"github.com/rs/zerolog"
 )
 
 type c07Node struct {
@@ -66,7 +65,7 @@ func (c *c07Chain) BlockRootToSlot(_ context.Context, _ phase0.Root) (phase0.Slo
 // chain specification and subscribes to head events.
 func c07New(timeout time.Duration, ct *vstub.ChainTime, providers map[string]eth2client.ProposalProvider, label string) *Service {
 	chain := &c07Chain{}
-	s, err := New(context.Background(), WithLogLevel(zerolog.Disabled), WithClientMonitor(vstub.ClientMonitor{}),
+	s, err := New(context.Background(), WithLogLevel(vnd.LogLevel()), WithClientMonitor(vstub.ClientMonitor{}),
 		WithTimeout(timeout), WithProcessConcurrency(int64(len(providers))), WithChainTimeService(ct),
 		WithEventsProvider(chain), WithSpecProvider(chain), WithProposalProviders(providers),
 		WithSignedBeaconBlockProvider(chain), WithBlockRootToSlotCache(chain))
